@@ -305,8 +305,13 @@ impl ProofGraph {
             if changed && !node.valid {
                 self.stats.invalidations += 1;
 
-                // Get dependents and propagate recursively
-                let further_deps = node.dependents.clone();
+                // Get dependents and propagate recursively. The global reverse index is
+                // authoritative: a node's own `dependents` set misses dependents that were
+                // inserted before the node itself existed.
+                let mut further_deps = node.dependents.clone();
+                if let Some(indexed) = self.dependencies.get(dependent_handle) {
+                    further_deps.extend(indexed.iter().copied());
+                }
                 for further_dep in further_deps {
                     self.propagate_invalidation(&further_dep, dependent_handle);
                 }
